@@ -59,6 +59,7 @@ def check_verify_fn(ck, F):
 
 def body(ck, F, cfg):
     ipp.check_create(ck, F)
+    ipp.folding_step(ck, F)
     A = ipp.check_vs(ck, F, "R10.3")
     for name, okk in A["guards_found"].items():
         ck.require(okk, "R10.5", f"guard:{name}", f"shape guard `{name}` -> Err(VerificationError) missing in InnerProductProof::verification_scalars", "src/inner_product_proof.rs")
@@ -88,7 +89,7 @@ def run(tier):
         "the first round with unit factors must equal the generic round. The verifier's u^2, u^-2 and the s recurrence are extracted from "
         "verification_scalars (s as a named recurrence) and compared with s[0]=prod u_j^-1, s[i]=s[i-2^lg i]*u_(lg n-1-lg i)^2. "
         "`verify`'s expected point is compared with the reference opening equation.",
-        rule_text="R10.1 round formulas; R10.2 twin rounds; R10.3 verifier scalars and recurrence; R10.4 verify equation; R10.5 halving / shape guards; R10.6 schedule",
+        rule_text="R10.1 round formulas; R10.2 twin rounds; R10.3 verifier scalars and recurrence; R10.4 verify equation; R10.5 halving / shape guards; R10.6 schedule; R10.7 inductive step of the folding theorem on the extracted rounds",
         not_decided=["the folding theorem (that these formulas make honest proofs verify and bind)", "degenerate identity cross-terms (rejected by the validating append, see C03)"],
         assumptions=["arkworks msm/inverse implement the algebra", "challenges are non-zero (inverse().unwrap())"],
     )
